@@ -13,28 +13,6 @@ inline const char *afname(int f) {
   return n[f];
 }
 
-// emplace whose arguments are references to *members* of an element (no argument has the element type or points to an element):
-// available for the element types that expose key / pay members
-template <class E, class = void>
-struct FieldAlias {
-  static const bool kAvailable = false;
-  template <class V, class It> static long emplace(V &, It, size_t) { return -2; }
-  template <class V> static void emplace_back(V &, size_t) {}
-};
-template <class E>
-struct FieldAlias<E, decltype(void(std::declval<E &>().key), void(std::declval<E &>().pay))> {
-  static const bool kAvailable = true;
-  template <class V, class It> static long emplace(V &v, It pos, size_t src) {
-    auto &e = v[static_cast<typename V::size_type>(src)];
-    auto it = v.emplace(pos, e.key, e.pay);
-    return static_cast<long>(it - v.begin());
-  }
-  template <class V> static void emplace_back(V &v, size_t src) {
-    auto &e = v[static_cast<typename V::size_type>(src)];
-    v.emplace_back(e.key, e.pay);
-  }
-};
-
 template <class Vec>
 struct AliasGrid : GridBase {
   typedef VecInfo<Vec> I;
